@@ -319,6 +319,9 @@ func (h *histRun) describe(lv lua.LValue, depth int) Val {
 
 func classifyErr(msg string) string {
 	switch {
+	case strings.HasPrefix(msg, "edge: "):
+		// the edge prelude's own verdict (error after the operation or its handler had completed)
+		return "other"
 	case strings.Contains(msg, "can not send a function, userdata, thread or table that has a metatable"):
 		return "refused"
 	case strings.Contains(msg, "send on closed channel"):
@@ -639,8 +642,9 @@ func isoOptions(i int) lua.Options {
 	return lua.Options{}
 }
 
-func runTrace(p *lua.FunctionProto, opts lua.Options, variant int) string {
-	L := lua.NewState(opts)
+// opts is handed to NewState as it is: the slice may be shared by all goroutines creating states
+func runTrace(p *lua.FunctionProto, opts []lua.Options, variant int) string {
+	L := lua.NewState(opts...)
 	defer L.Close()
 	L.SetGlobal("VARIANT", lua.LNumber(variant))
 	h := sha256.New()
@@ -686,7 +690,7 @@ func runIso(spec *IsoSpec) Result {
 		if err != nil {
 			return Result{Status: "error", Msg: "program does not compile"}
 		}
-		alone[v] = runTrace(q, lua.Options{}, v+1)
+		alone[v] = runTrace(q, []lua.Options{{}}, v+1)
 	}
 	obs.Conc = make([]string, spec.N)
 	obs.Exp = make([]string, spec.N)
@@ -697,11 +701,17 @@ func runIso(spec *IsoSpec) Result {
 	var emu sync.Mutex
 	stop := make(chan struct{})
 	var wg, cw sync.WaitGroup
+	// one Options value per variant, shared by every goroutine that creates a state (an embedder
+	// with one configuration for all its states): creating states concurrently must not write to it
+	shared := make([][]lua.Options, 4)
+	for v := range shared {
+		shared[v] = []lua.Options{isoOptions(v)}
+	}
 	for i := 0; i < spec.N; i++ {
 		wg.Add(1)
 		go func(i int) {
 			defer wg.Done()
-			obs.Conc[i] = runTrace(p, isoOptions(i), 1+i%nvariants)
+			obs.Conc[i] = runTrace(p, shared[i%4], 1+i%nvariants)
 		}(i)
 	}
 	for c := 0; c < spec.Churn; c++ {
@@ -724,7 +734,7 @@ func runIso(spec *IsoSpec) Result {
 						return
 					}
 				case 1:
-					L := lua.NewState(isoOptions(k))
+					L := lua.NewState(shared[k%4]...)
 					if err := L.DoString(spec.Other); err != nil {
 						emu.Lock()
 						errs = append(errs, "churn state failed: "+trunc(err.Error(), 200))
@@ -753,6 +763,11 @@ func runIso(spec *IsoSpec) Result {
 		return Result{Status: "hang", Msg: "states still running after the time limit"}
 	}
 	obs.H1 = protoHash(p)
+	for v := range shared {
+		if shared[v][0] != isoOptions(v) {
+			errs = append(errs, fmt.Sprintf("lua.NewState wrote into the caller's Options value (variant %d), which the goroutines creating states share", v))
+		}
+	}
 	r := Result{Status: "ok", Iso: obs, Errs: errs}
 	if len(errs) > 0 {
 		r.Status = "error"
